@@ -342,6 +342,36 @@ func TestC01(t *testing.T) {
 			{Kind: "list", Elem: &Ty{Kind: "u", N: 1}, N: 40}, {Kind: "list", Elem: &Ty{Kind: "u", N: 8}, N: 9},
 			{Kind: "bitlist", N: 300}, {Kind: "list", Elem: &Ty{Kind: "cont", Fields: []*Ty{{Kind: "u", N: 2}, {Kind: "u", N: 2}}}, N: 6},
 		}
+		// two live sub-views of one slot; the second writes a value whose backing node it
+		// already holds (a depth-0 composite around a bool: the shared true / false leaves), or
+		// writes its own backing back: the write lands in the parent all the same
+		{
+			bt := &Ty{Kind: "bool"}
+			one := &Ty{Kind: "cont", Fields: []*Ty{bt}}
+			bl := func(b bool) srcSpec { return srcSpec{kind: "lit", t: bt, v: &Val{Kind: "b", B: b}} }
+			for _, outer := range []*Ty{{Kind: "vec", Elem: one, N: 2}, {Kind: "list", Elem: one, N: 3}, {Kind: "cont", Fields: []*Ty{one, {Kind: "u", N: 8}}},
+				{Kind: "vec", Elem: &Ty{Kind: "vec", Elem: one, N: 1}, N: 2}} {
+				for _, first := range []bool{false, true} {
+					v := gs.val(outer)
+					var ops []hop
+					if outer.Elem != nil && outer.Elem.Kind == "vec" {
+						ops = []hop{{kind: "get", h: 0, i: 0}, {kind: "get", h: 0, i: 0}, {kind: "get", h: 1, i: 0}, {kind: "get", h: 2, i: 0},
+							{kind: "set", h: 3, i: 0, src: bl(!first)}, {kind: "htr", h: 0}, {kind: "set", h: 4, i: 0, src: bl(first)}, {kind: "set", h: 4, i: 0, src: bl(first)},
+							{kind: "htr", h: 0}, {kind: "ser", h: 0}, {kind: "set", h: 3, i: 0, src: bl(!first)}, {kind: "htr", h: 0}, {kind: "ser", h: 0}}
+					} else {
+						ops = []hop{{kind: "get", h: 0, i: 0}, {kind: "get", h: 0, i: 0}, {kind: "set", h: 2, i: 0, src: bl(first)}, {kind: "set", h: 1, i: 0, src: bl(!first)}, {kind: "htr", h: 0},
+							{kind: "set", h: 2, i: 0, src: bl(first)}, {kind: "htr", h: 0}, {kind: "ser", h: 0}, {kind: "set", h: 1, i: 0, src: bl(!first)}, {kind: "htr", h: 0}, {kind: "ser", h: 0}, {kind: "htr", h: 1}, {kind: "htr", h: 2}}
+					}
+					s := &hstate{h: h, count: &hashCalls}
+					root, err := buildView(outer, v)
+					if err != nil {
+						continue
+					}
+					s.push(outer, root)
+					histCase(out, "stale2", "sha", outer, v, "ctor", ops, runScript(s, ops))
+				}
+			}
+		}
 		rounds := 5
 		if thorough() {
 			rounds = 60
